@@ -1436,7 +1436,7 @@ def rw_comp_over_collected(func, k):
                 continue
             loop = blk[j]
             apps = [c for c in ast.walk(loop) if isinstance(c, ast.Call) and isinstance(c.func, ast.Attribute) and c.func.attr == 'append' and isinstance(c.func.value, ast.Name) and c.func.value.id == L]
-            if len(apps) != 1 or not isinstance(apps[0].args[0], ast.Name):
+            if len(apps) != 1 or not (isinstance(apps[0].args[0], ast.Name) or _is_pure(apps[0].args[0], allow_calls=False)):
                 continue
             # the loop body only tests and appends to plain names (nothing E could read is changed)
             okb = True
@@ -1470,11 +1470,11 @@ def rw_comp_over_collected(func, k):
     blk, i, j, q, app, pos, ipos = sites[k]
     st, loop = blk[i], blk[j]
     g = st.value.generators[0]
-    x = app.args[0].id
-    elt = copy.deepcopy(st.value.elt)
-    for n in list(ast.walk(elt)):
-        if isinstance(n, ast.Name) and n.id == g.target.id:
-            n.id = x
+    holder_e = ast.Expression(body=copy.deepcopy(st.value.elt))
+    for n in list(ast.walk(holder_e)):
+        if isinstance(n, ast.Name) and n.id == g.target.id and isinstance(n.ctx, ast.Load):
+            replace_node(holder_e, n, copy.deepcopy(app.args[0]))
+    elt = holder_e.body
     par = parents_of(loop)
     holder = par.get(app)          # the Expr statement
     hb = None
@@ -1483,7 +1483,12 @@ def rw_comp_over_collected(func, k):
             hb = b2
     if hb is None:
         return True
-    new_app = fix(ast.Expr(value=ast.Call(func=ast.Attribute(value=ast.Name(id=st.targets[0].id, ctx=ast.Load()), attr='append', ctx=ast.Load()), args=[elt], keywords=[])), holder)
+    def _app(e_):
+        return ast.Expr(value=ast.Call(func=ast.Attribute(value=ast.Name(id=st.targets[0].id, ctx=ast.Load()), attr='append', ctx=ast.Load()), args=[e_], keywords=[]))
+    if isinstance(elt, ast.IfExp) and pos == 'before':
+        new_app = fix(ast.If(test=elt.test, body=[_app(elt.body)], orelse=[_app(elt.orelse)]), holder)
+    else:
+        new_app = fix(_app(elt), holder)
     at = next(n_ for n_, h in enumerate(hb) if h is holder)
     hb.insert(at if pos == 'before' else at + 1, new_app)
     init = fix(ast.Assign(targets=[ast.Name(id=st.targets[0].id, ctx=ast.Store())], value=ast.List(elts=[], ctx=ast.Load())), blk[q])
@@ -1612,6 +1617,70 @@ def rw_zip_to_index(func, k):
             replace_node(owner, y, fix(ast.Subscript(value=ast.Name(id=sub[y.id], ctx=ast.Load()), slice=ast.Name(id=iv, ctx=ast.Load()), ctx=ast.Load()), y))
     g.target = fix(ast.Name(id=iv, ctx=ast.Store()), g.target)
     g.iter = fix(ast.Call(func=ast.Name(id='range', ctx=ast.Load()), args=[copy.deepcopy(N)], keywords=[]), g.iter)
+    return True
+
+
+def rw_zip_collected(func, k):
+    """L = [] ; for x in S: L.append(E(x))   ...   for x2, y in zip(S, L): B      ->      ... for x2 in S: B[y := E(x2)]
+    (L holds E(x) for every x of S in order; S and the operands of E unchanged in between; y only read)"""
+    sites = []
+    par = parents_of(func)
+    whole = getattr(Ctx, 'whole_func', None)
+    scope0 = func       # the collecting loop has to be in the window that is being rewritten (the whole function is the unrestored original)
+    for n in ast.walk(func):
+        if not (isinstance(n, ast.For) and isinstance(n.iter, ast.Call) and isinstance(n.iter.func, ast.Name) and n.iter.func.id == 'zip' and len(n.iter.args) == 2
+                and isinstance(n.target, ast.Tuple) and len(n.target.elts) == 2 and all(isinstance(t, ast.Name) for t in n.target.elts) and isinstance(n.iter.args[1], ast.Name)):
+            continue
+        S, L = n.iter.args[0], n.iter.args[1].id
+        if not _is_pure(S, allow_calls=False):
+            continue
+        coll = [lp for lp in ast.walk(scope0) if isinstance(lp, ast.For) and not lp.orelse and isinstance(lp.target, ast.Name) and ast.unparse(lp.iter) == ast.unparse(S)
+                and len(lp.body) >= 1 and any(_append_stmt(b_)[0] is not None and ast.unparse(_append_stmt(b_)[0]) == L for b_ in lp.body)]
+        if len(coll) != 1:
+            continue
+        lp = coll[0]
+        apps = [c for c in ast.walk(scope0) if isinstance(c, ast.Call) and isinstance(c.func, ast.Attribute) and c.func.attr in MUTATORS and ast.unparse(c.func.value) == L]
+        stores = [y for y in ast.walk(scope0) if isinstance(y, ast.Name) and y.id == L and isinstance(y.ctx, (ast.Store, ast.Del))]
+        if len(apps) != 1 or len(stores) != 1:
+            continue
+        app_stmt = next(b_ for b_ in lp.body if _append_stmt(b_)[0] is not None and ast.unparse(_append_stmt(b_)[0]) == L)
+        E = _append_stmt(app_stmt)[1]
+        if not _is_pure(E, allow_calls=False) or lp.lineno >= n.lineno:
+            continue
+        # the append is unconditional and the loop has no exits
+        if any(isinstance(y, (ast.Break, ast.Continue, ast.Return)) for y in ast.walk(lp)):
+            continue
+        roots = (_roots(E) | _roots(S)) - {lp.target.id}
+        changed = False
+        last_line = max([getattr(z, 'lineno', 0) for z in ast.walk(n)] + [n.lineno])
+        for y in ast.walk(scope0):
+            if not (lp.lineno < getattr(y, 'lineno', 0) <= last_line):
+                continue        # only what happens between the collection and the end of the consuming loop matters
+            if isinstance(y, ast.Name) and y.id in roots and isinstance(y.ctx, (ast.Store, ast.Del)):
+                changed = True
+            if isinstance(y, (ast.Subscript, ast.Attribute)) and isinstance(y.ctx, (ast.Store, ast.Del)) and ast.unparse(y.value) in roots:
+                changed = True
+        if not changed:
+            sites.append((n, lp.target.id, E))
+    if k >= len(sites):
+        return False
+    n, xv, E = sites[k]
+    x2, y = n.target.elts[0].id, n.target.elts[1].id
+    if any(isinstance(z, ast.Name) and z.id == y and isinstance(z.ctx, (ast.Store, ast.Del)) for b_ in n.body for z in ast.walk(b_)):
+        return True
+    inside = {id(z) for z in ast.walk(n)}
+    if not _free_loop_name(func, y, inside, par):
+        return True
+    for b_ in n.body:
+        for z in list(ast.walk(b_)):
+            if isinstance(z, ast.Name) and z.id == y and isinstance(z.ctx, ast.Load):
+                e2 = copy.deepcopy(E)
+                for w in ast.walk(e2):
+                    if isinstance(w, ast.Name) and w.id == xv:
+                        w.id = x2
+                replace_node(b_, z, fix(e2, z))
+    n.target = fix(ast.Name(id=x2, ctx=ast.Store()), n.target)
+    n.iter = n.iter.args[0]
     return True
 
 
@@ -3128,7 +3197,7 @@ def rw_inline_helper(func, k):
     return True
 
 
-GUIDED = [rw_zip_to_index, rw_inline_helper, rw_extract_temp, rw_flatten_comp_filter, rw_first_of_concat, rw_split_tuple_assign, rw_augcomp_to_loop, rw_len_zero, rw_bool_ifexp, rw_singleton_comp, rw_ndenumerate_value, rw_flat_to_ndenumerate, rw_slice_zero, rw_flip_compare, rw_keyword_to_positional, rw_fstring_to_percent, rw_np_all_any, rw_range_min_guard, rw_membership_container, rw_drop_default_arg, rw_unpack_first, rw_use_alias, rw_ravel_flatten, rw_last_appended, rw_pass_branch, rw_dictcomp_to_loop, rw_none_flag, rw_argcomp_to_loop, rw_hoist_return, rw_get_none, rw_else_after_exit_wrap, rw_else_after_exit_unwrap, rw_comp_to_loop, rw_loop_to_comp, rw_not_compare, rw_demorgan, rw_swap_branches, rw_merge_nested_if, rw_split_and_if, rw_guard_to_swapped_else, rw_swapped_else_to_guard, rw_drop_tail_return, rw_add_tail_return, rw_element_to_index_loop, rw_fuse_loops, rw_late_publication, rw_drop_tail_continue, rw_items_loop, rw_filter_loop, rw_loop_to_update, rw_is_false, rw_hoist_common_tail, rw_sink_common_tail, rw_try_tail_out, rw_try_tail_in, rw_genexp_loop, rw_guarded_subscript_get, rw_update_to_loop, rw_tolist_index, rw_fuse_nested_comp, rw_split_elif_after_exit, rw_join_elif_after_exit, rw_np_synonym, rw_append_augadd, rw_list_call_to_comp, rw_last_is_appended, rw_move_append, rw_append_comp_to_loop, rw_split_append_concat, rw_enumerate_to_index, rw_subscripted_literal, rw_extend_to_loop, rw_comp_over_collected, rw_tail_pass_to_continue, rw_split_or_exit, rw_merge_exit_ifs, rw_unroll_const_loop, rw_drop_noop_pass, rw_ifexp_to_if, rw_if_to_ifexp, rw_bool_to_if, rw_kwargs_default, rw_trailing_return, rw_enumerate, rw_return_temp]
+GUIDED = [rw_zip_collected, rw_zip_to_index, rw_inline_helper, rw_extract_temp, rw_flatten_comp_filter, rw_first_of_concat, rw_split_tuple_assign, rw_augcomp_to_loop, rw_len_zero, rw_bool_ifexp, rw_singleton_comp, rw_ndenumerate_value, rw_flat_to_ndenumerate, rw_slice_zero, rw_flip_compare, rw_keyword_to_positional, rw_fstring_to_percent, rw_np_all_any, rw_range_min_guard, rw_membership_container, rw_drop_default_arg, rw_unpack_first, rw_use_alias, rw_ravel_flatten, rw_last_appended, rw_pass_branch, rw_dictcomp_to_loop, rw_none_flag, rw_argcomp_to_loop, rw_hoist_return, rw_get_none, rw_else_after_exit_wrap, rw_else_after_exit_unwrap, rw_comp_to_loop, rw_loop_to_comp, rw_not_compare, rw_demorgan, rw_swap_branches, rw_merge_nested_if, rw_split_and_if, rw_guard_to_swapped_else, rw_swapped_else_to_guard, rw_drop_tail_return, rw_add_tail_return, rw_element_to_index_loop, rw_fuse_loops, rw_late_publication, rw_drop_tail_continue, rw_items_loop, rw_filter_loop, rw_loop_to_update, rw_is_false, rw_hoist_common_tail, rw_sink_common_tail, rw_try_tail_out, rw_try_tail_in, rw_genexp_loop, rw_guarded_subscript_get, rw_update_to_loop, rw_tolist_index, rw_fuse_nested_comp, rw_split_elif_after_exit, rw_join_elif_after_exit, rw_np_synonym, rw_append_augadd, rw_list_call_to_comp, rw_last_is_appended, rw_move_append, rw_append_comp_to_loop, rw_split_append_concat, rw_enumerate_to_index, rw_subscripted_literal, rw_extend_to_loop, rw_comp_over_collected, rw_tail_pass_to_continue, rw_split_or_exit, rw_merge_exit_ifs, rw_unroll_const_loop, rw_drop_noop_pass, rw_ifexp_to_if, rw_if_to_ifexp, rw_bool_to_if, rw_kwargs_default, rw_trailing_return, rw_enumerate, rw_return_temp]
 
 
 def _clone(node):
